@@ -462,7 +462,7 @@ fn step(st: &mut State, op: &Op, ctx: &Ctx, idx: usize) -> StepOut {
                     st.module = m;
                     st.cfg = cfg.clone();
                     st.custom_ids = collect_custom_ids(&st.module);
-                    st.edit_state = edits::EditState::default();
+                    st.edit_state = edits::EditState::for_module(&st.module);
                     StepOut::Reparsed { emitted: bytes, ok: true, err: String::new(), on_parse_calls: calls }
                 }
                 Err(e) => StepOut::Reparsed { emitted: bytes, ok: false, err: e, on_parse_calls: calls },
@@ -568,7 +568,8 @@ pub fn run_history(input: &[u8], cfg: &CfgBits, ops: &[Op], ambient_burn: u32, c
         Ok((Ok(m), calls)) => {
             t.steps.push(StepOut::Parsed { ok: true, err: String::new(), on_parse_calls: calls });
             let ids = collect_custom_ids(&m);
-            State { module: m, cfg: cfg.clone(), custom_ids: ids, edit_state: Default::default() }
+            let es = edits::EditState::for_module(&m);
+            State { module: m, cfg: cfg.clone(), custom_ids: ids, edit_state: es }
         }
     };
     let mut dead = false;
